@@ -8,8 +8,10 @@ import (
 
 // RoundRobinStrategy implements a round-robin load balancing strategy
 type RoundRobinStrategy struct {
-	backends []*Backend
+	// current is updated with 64-bit atomic operations and therefore comes first: only the first
+	// word of an allocated struct is guaranteed to be 64-bit aligned on 32-bit platforms
 	current  uint64
+	backends []*Backend
 	mutex    sync.RWMutex
 }
 
